@@ -303,6 +303,58 @@ fn run_prog(f: fn(&Scope, &Log), s: &Scope) -> Value {
     json!({"log": Value::Array(l.iter().map(|x| json!(*x)).collect()), "how": how})
 }
 
+/// A deferred closure is a scope of its own: guards it creates while it runs (at scope exit - possibly during an unwind) run when
+/// IT ends, last created first.  Log: 11 guard created, 10 leaving, -11 closure starts, 111.. inner guards created, -119 closure
+/// body ends, -(11k) inner closures.  x: how the outer scope is left (0 fall through, 1 return, 2 panic).
+fn nested_prog(route: u8, n: u8, x: u8, log: &Log) {
+    let body = || {
+        log.borrow_mut().push(-11);
+        let _g1;
+        let _g2;
+        if n >= 1 {
+            log.borrow_mut().push(111);
+            _g1 = defer(|| log.borrow_mut().push(-111));
+        }
+        if n >= 2 {
+            log.borrow_mut().push(112);
+            _g2 = defer(|| log.borrow_mut().push(-112));
+        }
+        log.borrow_mut().push(-119);
+    };
+    log.borrow_mut().push(11);
+    if route == 0 {
+        let _guard = defer(body);
+        log.borrow_mut().push(10);
+        match x {
+            0 => {},
+            1 => return,
+            _ => panic!("shape"),
+        }
+    } else {
+        defer!(body());
+        log.borrow_mut().push(10);
+        match x {
+            0 => {},
+            1 => return,
+            _ => panic!("shape"),
+        }
+    }
+}
+fn rec_nested(n: u8, x: u8) -> Value {
+    let run = |route: u8| -> Value {
+        let log: Log = RefCell::new(vec![]);
+        let how = match guard(|| nested_prog(route, n, x, &log)) {
+            Ok(()) => "returned".to_string(),
+            Err(m) if m == "shape" => "panicked".to_string(),
+            Err(m) => format!("panicked:{}", m.chars().take(60).collect::<String>()),
+        };
+        let l = log.borrow();
+        json!({"log": Value::Array(l.iter().map(|x| json!(*x)).collect()), "how": how})
+    };
+    let xs = ["fall", "return", "panic"][x as usize];
+    json!({"k": "dn", "n": n, "x": xs, "o": {"func": run(0), "mac": run(1)}})
+}
+
 fn rec_defer(s: &Scope) -> Value {
     json!({"k": "df", "p": shape_json(s), "o": {"func": run_prog(prog_func, s), "mac": run_prog(prog_mac, s)}})
 }
@@ -471,6 +523,14 @@ fn main() {
     }
 
     if all || set == "defer" {
+        for n in 0..=2u8 {
+            for x in 0..=2u8 {
+                if mine(&mut id) {
+                    prog.mark(id, &format!("nested defer n={} x={}", n, x));
+                    out.rec(&rec_nested(n, x));
+                }
+            }
+        }
         // every program of the two bounded families, then random programs of the full family (<= 2 nested scopes everywhere)
         let mut progs = shapes(&[2, 1, 0]);
         progs.extend(shapes(&[1, 2, 0]));
